@@ -81,7 +81,11 @@ for d in sorted(glob.glob(os.path.join(here, 'benign', 'C*'))):
         continue
     meta = json.load(open(os.path.join(d, 'meta.json')))
     res = json.load(open(rf))
-    out.append(f"| {os.path.basename(d)} | {meta.get('kind', '')} | {clip(meta['summary'], 230)} | {res['check_exit']} ({'silent' if res['silent'] else 'ALARM: ' + clip(res['first_signatures'], 80)}) |")
+    verdict = 'silent' if res['silent'] else 'ALARM: ' + clip(res['first_signatures'], 80)
+    nb = os.path.join(d, 'NOT-BENIGN.md')
+    if os.path.exists(nb):
+        verdict = ('alarm, and rightly so: ' if not res['silent'] else 'SILENT although: ') + clip(open(nb).read(), 260)
+    out.append(f"| {os.path.basename(d)} | {meta.get('kind', '')} | {clip(meta['summary'], 230)} | {res['check_exit']} ({verdict}) |")
 out.append('')
 out.append('### 10.4 Mutants written by the monitor builders (mutants/*.diff)\n')
 cnt = {}
